@@ -34,6 +34,10 @@ pub struct Model {
     pub recursive: BTreeMap<String, Sets>,
     /// source identifiers -> target text (whitespace-free)
     pub rules: BTreeMap<Vec<String>, String>,
+    /// normalised derive / attribute text -> text as registered (string literals keep their spaces)
+    pub orig: BTreeMap<String, String>,
+    /// source identifiers -> (source, target) as written in the winning call
+    pub rule_text: BTreeMap<Vec<String>, (String, String)>,
 }
 
 fn key_of_path(p: &str) -> String {
@@ -65,9 +69,17 @@ impl Model {
     pub fn apply(&mut self, op: &Op) {
         match op {
             Op::DerivesAll(v) | Op::SettingsDerivesAll(v) => {
+                for s in v {
+                    self.orig.insert(norm_item(s, false), s.clone());
+                }
                 self.global.0.extend(v.iter().map(|s| norm_item(s, false)))
             }
-            Op::AttrsAll(v) => self.global.1.extend(v.iter().map(|s| norm_item(s, true))),
+            Op::AttrsAll(v) => {
+                for s in v {
+                    self.orig.insert(norm_item(s, true), s.clone());
+                }
+                self.global.1.extend(v.iter().map(|s| norm_item(s, true)))
+            }
             Op::DerivesFor {
                 path,
                 items,
@@ -78,6 +90,9 @@ impl Model {
                 } else {
                     &mut self.specific
                 };
+                for s in items {
+                    self.orig.insert(norm_item(s, false), s.clone());
+                }
                 m.entry(key_of_path(path))
                     .or_default()
                     .0
@@ -93,6 +108,9 @@ impl Model {
                 } else {
                     &mut self.specific
                 };
+                for s in items {
+                    self.orig.insert(norm_item(s, true), s.clone());
+                }
                 m.entry(key_of_path(path))
                     .or_default()
                     .1
@@ -100,16 +118,62 @@ impl Model {
             }
             Op::SubInsert { src, tgt } | Op::SettingsSubstitute { src, tgt } => {
                 self.rules.insert(idents_of(src), norm_tgt(tgt));
+                self.rule_text.insert(idents_of(src), (src.clone(), tgt.clone()));
             }
             Op::SubInsertIfAbsent { src, tgt } => {
                 self.rules.entry(idents_of(src)).or_insert_with(|| norm_tgt(tgt));
+                self.rule_text
+                    .entry(idents_of(src))
+                    .or_insert_with(|| (src.clone(), tgt.clone()));
             }
             Op::SubExtend(v) => {
                 for (src, tgt) in v {
                     self.rules.insert(idents_of(src), norm_tgt(tgt));
+                    self.rule_text.insert(idents_of(src), (src.clone(), tgt.clone()));
                 }
             }
         }
+    }
+    /// The same settings registered once, in sorted order, each element exactly once: what the
+    /// history must be equivalent to if the builders are set/map accumulators.
+    pub fn canonical_ops(&self) -> Vec<Op> {
+        let o = |set: &BTreeSet<String>| -> Vec<String> {
+            set.iter()
+                .map(|k| self.orig.get(k).cloned().unwrap_or_else(|| k.clone()))
+                .collect()
+        };
+        let mut ops = vec![];
+        if !self.global.0.is_empty() {
+            ops.push(Op::DerivesAll(o(&self.global.0)));
+        }
+        if !self.global.1.is_empty() {
+            ops.push(Op::AttrsAll(o(&self.global.1)));
+        }
+        for (map, recursive) in [(&self.specific, false), (&self.recursive, true)] {
+            for (p, (d, a)) in map {
+                if !d.is_empty() {
+                    ops.push(Op::DerivesFor {
+                        path: p.clone(),
+                        items: o(d),
+                        recursive,
+                    });
+                }
+                if !a.is_empty() {
+                    ops.push(Op::AttrsFor {
+                        path: p.clone(),
+                        items: o(a),
+                        recursive,
+                    });
+                }
+            }
+        }
+        for (src, tgt) in self.rule_text.values() {
+            ops.push(Op::SubInsert {
+                src: src.clone(),
+                tgt: tgt.clone(),
+            });
+        }
+        ops
     }
     pub fn digest(&self) -> u64 {
         Digest::of_str(&format!("{self:?}"))
@@ -899,6 +963,7 @@ pub struct Stats {
     pub c11_both_ways_unknown: u64,
     pub c11_similar_hits: u64,
     pub model_states: BTreeSet<u64>,
+    pub canonical_comparisons: u64,
 }
 
 pub struct HistoryResult {
@@ -1081,6 +1146,46 @@ pub fn run_history(u: &Universe, hist: &[HOp], prop: Prop, perm_seed: u64) -> Hi
             if let Some(d) = judge_e2e(&got, &want, "root") {
                 fail(&mut violation, "generated-derives-differ", format!("after op {i}: {d}"));
                 break;
+            }
+            // refinement at the output level: the history-built settings must generate exactly
+            // what the model's settings, registered once each in canonical order, generate
+            // (this is where a stale parameter mapping of an overwritten rule would show)
+            let mut canon = Builders::new();
+            let mut canon_ok = true;
+            for op in m.canonical_ops() {
+                if canon.apply(&op).is_err() {
+                    canon_ok = false;
+                }
+            }
+            if canon_ok {
+                stats.canonical_comparisons += 1;
+                let sw = Switches {
+                    compact_as: None,
+                    ..Switches::standard()
+                };
+                let t_hist = observe::gen_tokens(
+                    &u.reg,
+                    &sw.settings(Builders {
+                        derives: b.derives.clone(),
+                        subs: b.subs.clone(),
+                    }),
+                );
+                let t_canon = observe::gen_tokens(&u.reg, &sw.settings(canon));
+                if t_hist != t_canon {
+                    let (a, c) = (
+                        t_hist.unwrap_or_else(|e| format!("Err:{e}")),
+                        t_canon.unwrap_or_else(|e| format!("Err:{e}")),
+                    );
+                    fail(
+                        &mut violation,
+                        "history-not-equivalent-to-its-settings",
+                        format!(
+                            "after op {i}: generating with the history-built settings differs from generating with the same settings registered once each\n{}",
+                            crate::c06::first_diff(&a, &c)
+                        ),
+                    );
+                    break;
+                }
             }
         }
     }
@@ -1496,6 +1601,7 @@ pub fn check(ctx: &Ctx, prop: Prop) -> i32 {
         agg.c11_unknown_paths_max = agg.c11_unknown_paths_max.max(s.c11_unknown_paths_max);
         agg.c11_both_ways_unknown += s.c11_both_ways_unknown;
         agg.c11_similar_hits += s.c11_similar_hits;
+        agg.canonical_comparisons += s.canonical_comparisons;
         for (k, v) in &s.outcomes {
             *agg.outcomes.entry(k.clone()).or_default() += v;
         }
@@ -1596,6 +1702,7 @@ pub fn check(ctx: &Ctx, prop: Prop) -> i32 {
             "full_readbacks_compared_with_model": agg.reads,
             "end_to_end_reads (flatten+generate+parse)": agg.e2e_reads,
             "generated_items_carrying_path_or_recursive_derives": agg.e2e_items_with_recursive,
+            "history_vs_canonical_settings_generations_compared": agg.canonical_comparisons,
         });
     } else {
         coverage["reach"] = json!({
